@@ -634,6 +634,7 @@ static parsec_data_t* twoDBC_kcyclic_data_of(parsec_data_collection_t *desc, ...
 {
     size_t pos = 0;
     int m, n, local_m, local_n, position;
+    parsec_data_key_t key;
     va_list ap;
     parsec_matrix_block_cyclic_t * dc;
     dc = (parsec_matrix_block_cyclic_t *)desc;
@@ -652,6 +653,7 @@ static parsec_data_t* twoDBC_kcyclic_data_of(parsec_data_collection_t *desc, ...
     /* Offset by (i,j) to translate (m,n) in the global matrix */
     m += dc->super.i / dc->super.mb;
     n += dc->super.j / dc->super.nb;
+    key = ((parsec_data_key_t)n * dc->super.lmt) + m; /* taken before (m,n) are reduced to the local block */
 
     /* Compute the local tile row */
     local_m = ( m / (dc->grid.krows * dc->grid.rows) ) * dc->grid.krows;
@@ -680,7 +682,7 @@ static parsec_data_t* twoDBC_kcyclic_data_of(parsec_data_collection_t *desc, ...
 
     return parsec_tiled_matrix_create_data( &dc->super,
                                      (char*)dc->mat + pos * parsec_datadist_getsizeoftype(dc->super.mtype),
-                                     position, (n * dc->super.lmt) + m );
+                                     position, key );
 }
 
 static parsec_data_t* twoDBC_kcyclic_data_of_key(parsec_data_collection_t *desc, parsec_data_key_t key)
